@@ -119,8 +119,12 @@ def main(argv: list[str]) -> int:
         shutil.copy(d / "demo.py", dest / "demo.py")
         meta = json.loads((d / "meta.json").read_text())
         prev = None
+        first_status = None
         if (dest / "meta.json").exists():
-            prev = json.loads((dest / "meta.json").read_text()).get("confirmed_by_main")
+            pm = json.loads((dest / "meta.json").read_text())
+            prev = pm.get("confirmed_by_main")
+            pcr = pm.get("check_result") or {}
+            first_status = pcr.get("status_at_import") or pcr.get("status")
         head = sh("git -C /repo log --format=%h -1").stdout.strip()
         meta["confirmed_by_main"] = {
             "repo_head": head,
@@ -136,6 +140,8 @@ def main(argv: list[str]) -> int:
         meta["check_result"] = {"status": status, "rules_fired": chk.get("rules"),
                                 "first_lines": chk.get("violation_lines", [])[:3],
                                 "analysis_error": chk.get("analysis_error")}
+        if first_status:
+            meta["check_result"]["status_at_import"] = first_status
         (dest / "meta.json").write_text(json.dumps(meta, indent=1))
     return 0
 
